@@ -57,6 +57,11 @@ func (t *BaseTraveler) Copy() Traveler {
 		Signal: t.Signal,
 	}
 	for k, v := range t.Marks {
+		if v == nil {
+			// a mark set on a traveler without a current element (after outNull etc.)
+			o.Marks[k] = nil
+			continue
+		}
 		o.Marks[k] = &DataElement{
 			ID:    v.ID,
 			Label: v.Label,
